@@ -23,6 +23,74 @@ pub struct ColorFont {
     /// byte offsets (within COLR) of 32-bit paint offset slots with their base: (slot position, base)
     pub layer_slots: Vec<(usize, usize)>,
     pub base_slots: Vec<(usize, usize, u16)>,
+    /// (base glyph id, absolute offset within COLR of a VarIndexBase field reachable from its root paint)
+    pub var_fields: Vec<(u16, usize)>,
+}
+
+/// Byte-level walk over the paint graph (formats and child offsets from the COLR specification)
+/// collecting the VarIndexBase fields of variable paints.
+fn collect_var_fields(colr: &[u8], at: usize, layers: &[(usize, usize)], roots: &std::collections::BTreeMap<u16, usize>, depth: u32, seen: &mut std::collections::BTreeSet<usize>, out: &mut Vec<usize>) {
+    if depth > 24 || !seen.insert(at) {
+        return;
+    }
+    let Some(fmt) = colr.get(at).copied() else { return };
+    let off24 = |p: usize| -> Option<usize> { colr.get(p..p + 3).map(|b| ((b[0] as usize) << 16) | ((b[1] as usize) << 8) | b[2] as usize) };
+    let vib = match fmt {
+        3 => Some(5),
+        5 | 7 => Some(16),
+        9 | 19 | 31 => Some(12),
+        15 | 17 | 29 => Some(8),
+        21 | 25 => Some(6),
+        23 | 27 => Some(10),
+        _ => None,
+    };
+    if let Some(v) = vib {
+        if at + v + 4 <= colr.len() {
+            out.push(at + v);
+        }
+    }
+    match fmt {
+        1 => {
+            if at + 6 <= colr.len() {
+                let n = colr[at + 1] as usize;
+                let first = be32(colr, at + 2).unwrap_or(0) as usize;
+                for k in first..(first + n).min(layers.len()) {
+                    let (slot, base) = layers[k];
+                    if let Some(o) = be32(colr, slot) {
+                        collect_var_fields(colr, base + o as usize, layers, roots, depth + 1, seen, out);
+                    }
+                }
+            }
+        }
+        11 => {
+            if at + 3 <= colr.len() {
+                let gid = u16::from_be_bytes([colr[at + 1], colr[at + 2]]);
+                if let Some(r) = roots.get(&gid) {
+                    collect_var_fields(colr, *r, layers, roots, depth + 1, seen, out);
+                }
+            }
+        }
+        13 => {
+            if let (Some(c), Some(t)) = (off24(at + 1), off24(at + 4)) {
+                if at + t + 28 <= colr.len() {
+                    out.push(at + t + 24);
+                }
+                collect_var_fields(colr, at + c, layers, roots, depth + 1, seen, out);
+            }
+        }
+        32 => {
+            if let (Some(a), Some(b)) = (off24(at + 1), off24(at + 5)) {
+                collect_var_fields(colr, at + a, layers, roots, depth + 1, seen, out);
+                collect_var_fields(colr, at + b, layers, roots, depth + 1, seen, out);
+            }
+        }
+        10 | 12 | 14..=31 => {
+            if let Some(c) = off24(at + 1) {
+                collect_var_fields(colr, at + c, layers, roots, depth + 1, seen, out);
+            }
+        }
+        _ => {}
+    }
 }
 
 fn be32(b: &[u8], at: usize) -> Option<u32> {
@@ -67,7 +135,17 @@ pub fn color_fonts() -> &'static [ColorFont] {
                     }
                 }
             }
-            v.push(ColorFont { name: f.name.clone(), data: f.data, colr, n_glyphs, n_axes: fr.axes().len(), layer_slots, base_slots });
+            let roots: std::collections::BTreeMap<u16, usize> = base_slots.iter().filter_map(|(slot, base, gid)| be32(&colr, *slot).map(|o| (*gid, base + o as usize))).collect();
+            let mut var_fields = Vec::new();
+            for (gid, root) in &roots {
+                let mut seen = std::collections::BTreeSet::new();
+                let mut out = Vec::new();
+                collect_var_fields(&colr, *root, &layer_slots, &roots, 0, &mut seen, &mut out);
+                for o in out {
+                    var_fields.push((*gid, o));
+                }
+            }
+            v.push(ColorFont { name: f.name.clone(), data: f.data, colr, n_glyphs, n_axes: fr.axes().len(), layer_slots, base_slots, var_fields });
         }
         v
     })
@@ -92,6 +170,10 @@ pub enum ColrFault {
     GlyphChildBecomesSelf { r: u32 },
     BitFlip { bit: u32 },
     Truncate { keep_permille: u32 },
+    /// a 32-bit field (offsets, variation index bases, counts) set to an extreme value
+    ExtremeField { at: u32, v: u32 },
+    /// the VarIndexBase of the k-th variable paint reachable from some base glyph set to an extreme value
+    VarIndexBaseExtreme { k: u32, v: u32 },
 }
 
 #[derive(Clone, Debug, Serialize, Deserialize)]
@@ -298,6 +380,21 @@ fn apply_faults(cf: &ColorFont, faults: &[ColrFault], touched: &mut Vec<u32>, st
                     stats.bump("fault.colr.bit_flip");
                 }
             }
+            ColrFault::ExtremeField { at, v } => {
+                if c.len() > 4 {
+                    let a = *at as usize % (c.len() - 4);
+                    c[a..a + 4].copy_from_slice(&v.to_be_bytes());
+                    stats.bump("fault.colr.field_set_to_extreme");
+                }
+            }
+            ColrFault::VarIndexBaseExtreme { k, v } if !cf.var_fields.is_empty() => {
+                let (gid, at) = cf.var_fields[*k as usize % cf.var_fields.len()];
+                if at + 4 <= c.len() {
+                    c[at..at + 4].copy_from_slice(&v.to_be_bytes());
+                    stats.bump("fault.colr.var_index_base_set_to_extreme");
+                    touched.push(gid as u32);
+                }
+            }
             ColrFault::Truncate { keep_permille } => {
                 let keep = (c.len() as u64 * *keep_permille as u64 / 1000) as usize;
                 c.truncate(keep);
@@ -342,6 +439,8 @@ impl Engine for PaintMonitor {
                 5 => ColrFault::RootBecomesColrGlyph { r: a, q: if rng.chance(1, 3) { a } else { b } },
                 6 => ColrFault::LayerBecomesColrGlyph { k: a, q: b },
                 7 if rng.chance(1, 2) => ColrFault::GlyphChildBecomesSelf { r: a },
+                8 if rng.chance(1, 3) => ColrFault::VarIndexBaseExtreme { k: a, v: *rng.pick(&[0xFFFF_FFFEu32, 0xFFFF_FFFD, 0xFFFF_FFF0, 0x7FFF_FFFF, 0x0001_0000]) },
+                8 if rng.chance(1, 2) => ColrFault::ExtremeField { at: a, v: *rng.pick(&[0xFFFF_FFFFu32, 0xFFFF_FFFE, 0x7FFF_FFFF, 0x8000_0000, 0x00FF_FFFF]) },
                 7 => ColrFault::BitFlip { bit: rng.below(cf.colr.len() as u64 * 8) as u32 },
                 _ => ColrFault::Truncate { keep_permille: 200 + rng.below(800) as u32 },
             });
